@@ -468,9 +468,15 @@ class Randomizer(RandIF):
             for c in ps:
                 pc.append(c[0])
             
-            lint_r = LintVisitor().lint(
-              [],
-              pc)
+            try:
+                lint_r = LintVisitor().lint(
+                  [],
+                  pc)
+            except Exception:
+                # Lint is a best-effort aid: it evaluates constant 
+                # sub-expressions, which not all expression kinds support.
+                # It must never mask the solve failure being reported
+                lint_r = ""
             
             if lint_r != "":
                 ret += "Lint Results:\n" + lint_r
